@@ -362,3 +362,73 @@ func VerifC42Publish() {
 	}
 	vReach("end")
 }
+
+// VerifC42Connect: a CONNECT written from the specification (MQTT 3.1.2 / 3.1.3) with any combination of clean
+// start, will (QoS, retain), user name and password presence - in MQTT 5 a password may come without a user
+// name - and, for MQTT 5, connect properties in any order, decodes to the sender's values.
+func VerifC42Connect() {
+	ver := byte(vParam("VER", 5))
+	clean, will, wret := vBool(), vBool(), vBool()
+	wq := vByteIn("\x00\x01\x02")
+	hasUser, hasPass := vBool(), vBool()
+	if ver < 5 {
+		vAssume(hasUser || !hasPass) // [MQTT-3.1.2-22]
+	}
+	keep := vU16()
+	id := vASCII(vLen(2))
+	user, pass := vASCII(1+vLen(1)), vBytes(1+vLen(1))
+	var flags byte
+	if clean {
+		flags |= 0x02
+	}
+	if will {
+		flags |= 0x04 | byte(vConcrete(int(wq), 0, 2))<<3
+		if wret {
+			flags |= 0x20
+		}
+	}
+	if hasPass {
+		flags |= 0x40
+	}
+	if hasUser {
+		flags |= 0x80
+	}
+	body := rCat(rStr("MQTT"), []byte{ver, flags}, rU16(keep))
+	var sei uint32
+	var rm uint16
+	if ver == 5 {
+		sei, rm = vU32(), vU16()
+		vAssume(rm != 0)
+		props := [][]byte{rCat([]byte{PropSessionExpiryInterval}, rU32(sei)), rCat([]byte{PropReceiveMaximum}, rU16(rm))}
+		pb := rPermute(props, vChoose(2))
+		body = rCat(body, rVarint(len(pb)), pb)
+	}
+	body = rCat(body, rStr(id))
+	if will {
+		if ver == 5 {
+			body = rCat(body, []byte{0})
+		}
+		body = rCat(body, rStr("w"), rBin([]byte{7}))
+	}
+	if hasUser {
+		body = rCat(body, rStr(user))
+	}
+	if hasPass {
+		body = rCat(body, rBin(pass))
+	}
+	pk := Packet{FixedHeader: FixedHeader{Type: Connect, Remaining: len(body)}}
+	err := pk.ConnectDecode(body)
+	vAssert("connect-decodes", err == nil)
+	if err != nil {
+		return
+	}
+	vAssert("connect-version-and-keepalive", pk.ProtocolVersion == ver && pk.Connect.Keepalive == keep && pk.Connect.Clean == clean)
+	vAssert("connect-client-id", pk.Connect.ClientIdentifier == id)
+	vAssert("connect-will", pk.Connect.WillFlag == will && (!will || (pk.Connect.WillQos == wq && pk.Connect.WillRetain == wret && pk.Connect.WillTopic == "w" && len(pk.Connect.WillPayload) == 1 && pk.Connect.WillPayload[0] == 7)))
+	vAssert("connect-user-name", pk.Connect.UsernameFlag == hasUser && (!hasUser || string(pk.Connect.Username) == user))
+	vAssert("connect-password", pk.Connect.PasswordFlag == hasPass && (!hasPass || bytes.Equal(pk.Connect.Password, pass)))
+	if ver == 5 {
+		vAssert("connect-properties", pk.Properties.SessionExpiryInterval == sei && pk.Properties.SessionExpiryIntervalFlag && pk.Properties.ReceiveMaximum == rm)
+	}
+	vReach("end")
+}
